@@ -27,8 +27,46 @@ def balanced(src, i, open_ch, close_ch):
         k += 1
 
 
+def sharing_types():
+    """names of the crate's own types that carry a shared mutable cell, directly or through another such type: structs
+    whose fields mention one, and type aliases whose right-hand side does (RcHandler = MutArc<..>, MultiSubscription, TaskHandle,
+    Subscriber, the subjects ...).  A field of such a type shares state between clones just as a bare Rc does."""
+    defs = {}
+    for root, _, files in os.walk(os.path.join(REPO, "src")):
+        for f in sorted(files):
+            if not f.endswith(".rs"):
+                continue
+            src = strip_comments(open(os.path.join(root, f)).read())
+            t = src.find("#[cfg(test)]")
+            body = src if t < 0 else src[:t]
+            for m in re.finditer(r"\btype\s+(\w+)\s*(<[^=;]*>)?\s*=\s*([^;]*);", body):
+                defs.setdefault(m.group(1), []).append(m.group(3))
+            for m in re.finditer(r"\bstruct\s+(\w+)\s*(<[^{(;]*>)?\s*(where[^{(;]*)?([{(;])", body):
+                name, opener = m.group(1), m.group(4)
+                if opener == ";":
+                    continue
+                j = m.end() - 1
+                k = balanced(body, j, opener, "}" if opener == "{" else ")")
+                defs.setdefault(name, []).append(body[j + 1:k])
+    sharing = set()
+    changed = True
+    while changed:
+        changed = False
+        for name, bodies in defs.items():
+            if name in sharing:
+                continue
+            for b in bodies:
+                if SHARED.search(b) or any(re.search(r"\b%s\b" % re.escape(s), b) for s in sharing):
+                    sharing.add(name)
+                    changed = True
+                    break
+    return sharing
+
+
 def main():
     rows = []
+    own = sharing_types()
+    own_re = re.compile(r"\b(" + "|".join(sorted(re.escape(x) for x in own)) + r")\b") if own else None
     for root, _, files in os.walk(os.path.join(REPO, "src")):
         for f in sorted(files):
             if not f.endswith(".rs"):
@@ -43,8 +81,12 @@ def main():
             impls = set(re.findall(r"Observable<[^{;]*?>\s*for\s+(\$?\w+)", body))
             macro_args = set()
             for m in re.finditer(r"\bimpl_\w+!\s*\(([^)]*)\)", body):
-                for a in m.group(1).split(","):
+                # an argument may carry its generics (`ObserveOnOp<S,SD>`): the leading identifier names the struct
+                for a in re.split(r",(?![^<]*>)", m.group(1)):
                     macro_args.add(a.strip())
+                    w = re.match(r"\w+", a.strip())
+                    if w:
+                        macro_args.add(w.group(0))
             for m in re.finditer(r"\bstruct\s+(\w+)\s*(<[^{(;]*>)?\s*(where[^{(;]*)?([{(;])", body):
                 name, opener = m.group(1), m.group(4)
                 if name.endswith("Observer") or name.endswith("ObserverThreads"):
@@ -58,7 +100,10 @@ def main():
                     k = balanced(body, j, opener, "}" if opener == "{" else ")")
                     fields = body[j + 1:k]
                 fields_n = re.sub(r"\s+", " ", fields).strip()
-                rows.append((rel + ":" + name, bool(SHARED.search(fields_n)), fields_n))
+                # a generic parameter may bear the name of one of the crate's types (`Subject`): it is the parameter then
+                params = set(re.findall(r"\b(\w+)\b", m.group(2) or ""))
+                hit_own = [x for x in (own_re.findall(fields_n) if own_re else []) if x not in params and x != name]
+                rows.append((rel + ":" + name, bool(SHARED.search(fields_n)) or bool(hit_own), fields_n))
     rows.sort()
     text = "(* GENERATED by tools/gen_opstate.py from /repo/src on every run: do not edit. *)\n"
     text += "From Coq Require Import String List.\nImport ListNotations.\nOpen Scope string_scope.\n\n"
